@@ -118,7 +118,24 @@ class AcqFamily(Family):
             got_q = [o.acquisition_index for o in meas]
             if got_q != want_q:
                 res.fail('C07-qubit-level', 'program %r: per-qubit indices in listing order are %r, expected %r' % (prog, got_q, want_q))
-            tags = sorted({(o.acquisition_identifier.qubit_index, o.acquisition_identifier.tag) for o in meas})
+            # filters are asked with the tags as they were *given* when the measurements were created (a tag is an arbitrary
+            # string; how the library stores it is its business): per (qubit, tag) as many indices as measurements were
+            # created with it, together a partition of the qubit's indices
+            stored = {(o.acquisition_identifier.qubit_index, o.acquisition_identifier.tag) for o in meas}
+            given = given_tags(prog)
+            tags = sorted(stored) if stored == set(given) else []
+            for q in QUBITS:
+                union = []
+                for (tq, tag), cnt in sorted(given.items()):
+                    if tq != q:
+                        continue
+                    got_t = [int(x) for x in un.get_acquisition_indices(AcquisitionTag(q, tag))]
+                    if len(got_t) != cnt:
+                        res.fail('C07-by-tag', 'program %r: %d measurements of qubit %d were created with tag %r, the filter returns %r' % (prog, cnt, q, tag, got_t))
+                    union.extend(got_t)
+                allq = [i for o, i in zip(meas, want_q) if o.acquisition_identifier.qubit_index == q]
+                if sorted(union) != allq:
+                    res.fail('C07-partition', 'program %r: the given tags do not partition the indices of qubit %d: %r vs %r' % (prog, q, sorted(union), allq))
             for q in QUBITS:
                 want = [i for o, i in zip(meas, want_q) if o.acquisition_identifier.qubit_index == q]
                 got = [int(x) for x in un.get_acquisition_indices(q)]
@@ -162,6 +179,19 @@ class AcqFamily(Family):
         res.validated = 1
         res.trivial = len(meas) < 2
         return res
+
+
+def given_tags(prog, mult=1):
+    """{(qubit, tag): number of measurements created with it, counting repetitions}"""
+    out = {}
+    for e in prog:
+        if e[0] == 'op' and e[1] == 'M':
+            key = (e[2], e[4] if len(e) > 4 else '')
+            out[key] = out.get(key, 0) + mult
+        elif e[0] == 'sub':
+            for k, v in given_tags(e[2], mult * rep_count(e[1])).items():
+                out[k] = out.get(k, 0) + v
+    return {k: v for k, v in out.items() if v > 0}
 
 
 class DeepChainSpace(Space):
